@@ -282,6 +282,9 @@ static void run_line(char *line) {
             else if (!strcmp(tok[i], "txcap")) vp_opt_tx_cap = v;
             else if (!strcmp(tok[i], "sleep")) vp_opt_sleep = v;
             else if (!strcmp(tok[i], "failrc")) vp_fail_rc = v ? v : -1;
+            else if (!strcmp(tok[i], "sloppy")) vp_opt_sloppy = v;
+            else if (!strcmp(tok[i], "failstyle")) vp_opt_fail_style = v;
+            else if (!strcmp(tok[i], "emptyicon")) vp_opt_empty_ok = v;
             else if (!strcmp(tok[i], "txcost")) vp_opt_tx_cost = v;
             else if (!strcmp(tok[i], "hellocost")) vp_opt_hello_cost = v;
             else if (!strcmp(tok[i], "clocktick")) vp_opt_clock_tick = v;
